@@ -41,7 +41,10 @@ RULE = ("documents pre + NAME ':' value + post; value = lead + values joined by 
         "boundaries other than LF (FF, VT, CR, NEL, LS, FS) and with empty values (outside the property's domain: "
         "only the correspondence is demanded there); x both interpretations x operation sequences of length 0-7 "
         "(0 = open and close without change) over append / remove / replace / snapshot of references / "
-        "ref.value / ref.value = x / ref.remove() / append_separator / append_newline / append_comment, "
+        "ref.value / ref.value = x / ref.remove() / append_separator / append_newline / append_comment, and - in about "
+        "8% of the edit sessions - reformat_when_finished() at any position of the operation list, on values with "
+        "0-3 comment lines before the first value, a blank first line and comment lines between the values (the "
+        "write-back then goes through formatter.one_value_per_line_trailing_separator), "
         "arguments mostly present values and good new values, sometimes absent values, '', blanks, values with "
         "separators, line breaks, stale or out-of-range references.  Leaf cases: the two finditer patterns "
         "against the live compiled objects (bounded-exhaustive over {a , SP TAB # NBSP} + random), the live "
@@ -223,6 +226,47 @@ def gen_ops(rng, comma, vals):
     return ops
 
 
+def gen_reformat_value(rng, comma):
+    """A value for a reformatting session: 0-3 comment lines before the first value (the first line is then
+    blank), a blank first line, comment lines between the values, one or several values per line."""
+    n = rng.choice([1, 2, 2, 3, 3, 4])
+    words = [rng.choice(WORDS_CM if comma else WORDS_SP) for _ in range(n)]
+    lead_comments = rng.choice([0, 0, 1, 2, 2, 3])
+    blank_first = lead_comments > 0 or rng.random() < 0.3
+    v = (rng.choice(["", " ", "  "]) + "\n") if blank_first else " "
+    for i in range(lead_comments):
+        v += rng.choice(["# toolchain\n", "#\n", "# (keep sorted)\n", "#x\n"])
+    if blank_first:
+        v += rng.choice([" ", "\t", "  "])
+    for i, w in enumerate(words):
+        v += w
+        if i < n - 1:
+            r = rng.random()
+            sep = "," if comma else ""
+            if r < 0.45:
+                v += sep + " "
+            elif r < 0.8:
+                v += sep + "\n" + rng.choice([" ", "\t"])
+            else:
+                v += sep + "\n" + "".join(rng.choice(["# between\n", "#\n"]) for _ in range(rng.choice([1, 2]))) + " "
+    if comma and rng.random() < 0.3:
+        v += ","
+    return v + "\n"
+
+
+def gen_reformat(rng, comma, pre, name, post):
+    """An edit session (direct edits and edits through references, good new values mostly) with a
+    reformat_when_finished() request at any position of the operation list."""
+    value = gen_reformat_value(rng, comma)
+    vals = oracle_split(comma, value)
+    ops = [o for o in gen_ops(rng, comma, vals) if o[0] not in ("sep", "newline", "comment")]
+    if not any(o[0] in ("append", "remove", "replace", "refset", "refremove") for o in ops):
+        ops.append(["append", _good_new(rng, comma)])
+    ops.insert(rng.randrange(0, len(ops) + 1), ["reformat"])
+    return {"t": "view", "comma": comma, "pre": pre, "name": name, "value": value, "post": post, "ops": ops,
+            "tag": "reformat"}
+
+
 def gen_view(rng):
     comma = rng.random() < 0.5
     pre = rng.choice(PRES)
@@ -244,6 +288,8 @@ def gen_view(rng):
         pre, value, post = (x.replace("\n", "\r\n") for x in (pre, value, post))
         tag = "crlf"
     ops = gen_ops(rng, comma, oracle_split(comma, value))
+    if ops and tag == "plain" and rng.random() < 0.08:
+        return gen_reformat(rng, comma, pre, name, post)
     case = {"t": "view", "comma": comma, "pre": pre, "name": name, "value": value, "post": post, "ops": ops,
             "tag": tag}
     if tag == "plain" and rng.random() < 0.08:
@@ -411,6 +457,8 @@ def run_view(case):
                             tl.append_newline()
                         elif k == "comment":
                             tl.append_comment(op[1])
+                        elif k == "reformat":
+                            tl.reformat_when_finished()
                         else:
                             raise RuntimeError("unknown op")
                         obs["ops"].append({"ok": list(tl), "got": got})
@@ -504,6 +552,8 @@ def _op(op):
         return "PNewline"
     if k == "comment":
         return "PComment %s" % cq_str(op[1])
+    if k == "reformat":
+        return "PReformat"
     raise ValueError(k)
 
 
@@ -579,13 +629,20 @@ def classify(case, obs):
     kinds = sorted(set(o[0] for o in case["ops"]))
     if not kinds:
         opc = "noop"
-    elif any(k.startswith("ref") for k in kinds):
+    elif any(k.startswith("ref") and k != "reformat" for k in kinds):
         opc = "refs"
     elif any(k in ("sep", "newline", "comment") for k in kinds):
         opc = "extra"
     else:
         opc = "direct"
     nerr = sum(1 for o in obs["ops"] if "err" in o)
+    if "reformat" in kinds:
+        lead = 0
+        for l in lf_lines(obs["value"])[1:]:
+            if not l.startswith("#"):
+                break
+            lead += 1
+        opc += "+reformat(lead#%d)" % min(lead, 3)
     return "view/%s/%s/%s%s/read:%s/close:%s" % (
         "comma" if case["comma"] else "space", _layout(obs["value"]), opc, "+refused" if nerr else "",
         "ok" if "ok" in obs["read"] else obs["read"]["err"], obs["close"] or "ok")
